@@ -67,38 +67,10 @@ theorem nextBar_total (s : ChandelierExit F) (b : Bar F) (h : WF s) :
   · exact (p2.trans h.pmin).trans p1.symm
   · exact (p3.trans h.pmax).trans p1.symm
 
-/-- `reset` = component resets (ATR, Minimum, Maximum in that order); the multiplier is kept -/
-theorem reset_wiring (s : ChandelierExit F) (atr' : AverageTrueRange F) (mn' : Minimum F) (mx' : Maximum F)
-    (h1 : s.atr.reset = some atr') (h2 : s.min.reset = some mn') (h3 : s.max.reset = some mx') :
-    s.reset = some { atr := atr', min := mn', max := mx', multiplier := s.multiplier } := by
-  unfold reset
-  simp [h1, h2, h3]
-
-/-- `reset` rebuilds exactly the state `new` builds (with the same multiplier) -/
-theorem reset_eq (s : ChandelierExit F) (h : WF s) :
-    s.reset = some (fresh s.period_fn s.multiplier) := by
-  rw [reset_wiring s _ _ _ (AverageTrueRange.reset_eq _ h.atr)
-    (Minimum.reset_eq _ h.min) (Maximum.reset_eq _ h.max), h.pmin, h.pmax]
-  rfl
-
-theorem reset_wf (s : ChandelierExit F) (h : WF s) :
-    ∃ r, s.reset = some r ∧ WF r ∧ r.period_fn = s.period_fn ∧ r.multiplier = s.multiplier := by
-  have h8 : s.atr.period_fn * 8 ≤ isizeMax := h.pmin ▸ h.min.small
-  exact ⟨_, reset_eq s h, fresh_wf _ _ h.atr.ema.pos h8, rfl, rfl⟩
-
 omit [Scalar F] in
 theorem period_fn_eq (s : ChandelierExit F) : s.period_fn = s.atr.ema.period := rfl
 
 omit [Scalar F] in
 theorem multiplier_fn_eq (s : ChandelierExit F) : s.multiplier_fn = s.multiplier := rfl
-
-omit [Scalar F] in
-theorem display_eq (fmt : F → String) (s : ChandelierExit F) :
-    display fmt s = "CE(" ++ toString s.atr.ema.period ++ ", " ++ fmt s.multiplier ++ ")" := rfl
-
-theorem default_eq : (default_ : Option (ChandelierExit F)) = some (fresh 22 (Scalar.lit 3 0)) := by
-  unfold default_
-  rw [new_eq]
-  simp [unwrap, isizeMax]
 
 end TaRs.Gen.ChandelierExit
